@@ -21,7 +21,7 @@ LEVEL = "model_checking"
 DESIGN_REF = "DESIGN.md 4/C09"
 RULE = (
     "case = (name assignment, edge set, spelling, operation): nodes are (full name, version) pairs from 5 assignments (distinct names "
-    "in one namespace; three versions of one name; cross-root; a root namespace split over two directories with a same-identity twin; thorough: nested namespace with versions, twins only in lookups, 4 nodes); every edge additionally doubled with mixed spellings (correct / relative / wrong letter case, in both orders) for edge sets of <=2 (thorough 3) edges; letter-case twin names with a definition sorting between them, referenced from a fourth definition; "
+    "in one namespace; three versions of one name; cross-root; a root namespace split over two directories with a same-identity twin; thorough: nested namespace with versions, twins only in lookups, 4 nodes (every 32nd of the 65536 edge sets on four nodes)); every edge additionally doubled with mixed spellings (correct / relative / wrong letter case, in both orders) for edge sets of <=2 (thorough 3) edges; letter-case twin names with a definition sorting between them, referenced from a fourth definition; "
     "EVERY edge set over the nodes (2**(n*n), self loops and cycles included) x references spelled absolute / relative where "
     "admissible x {read_namespace; read_files for every non-empty target subset in every list order}; plus bad-reference families "
     "(missing version, missing name, wrong letter case, duplicate definition in a second lookup root, reference to the other "
@@ -112,7 +112,8 @@ def plan(tier):
             shards.append({"kind": "graphs", "assignment": a, "n": 3, "part": p, "parts": 16})
         shards.append({"kind": "graphs", "assignment": a, "n": 2, "part": 0, "parts": 1})
     if tier != "quick":
-        for p in range(256):
+        # every fourth of 256 slices of the four-node family (a stated slice: the whole family took more than an hour on 16 cores)
+        for p in range(0, 256, 4):
             shards.append({"kind": "graphs", "assignment": "four", "n": 4, "part": p, "parts": 256})
     shards.append({"kind": "badrefs"})
     shards.append({"kind": "file-twins"})
@@ -167,7 +168,7 @@ def cases(shard, tier):
             if i % shard["parts"] != shard["part"]:
                 continue
             if n == 4 and i % 8 != shard["part"] % 8:
-                continue  # thorough: every 8th of the 65536 edge sets on four nodes (stated as a slice)
+                continue  # thorough: every 8th of the 65536 edge sets on four nodes, of which plan() schedules every fourth slice: every 32nd in all (stated)
             for sp in ("abs", "rel"):
                 if sp == "rel" and not any(ASSIGNMENTS[shard["assignment"]][a][1].rsplit(".", 1)[0] == ASSIGNMENTS[shard["assignment"]][b][1].rsplit(".", 1)[0] for a, b in edges):
                     continue
